@@ -133,6 +133,7 @@ func mapGlobalSecondaryIndexDescriptionToDynamodb(input []types.GlobalSecondaryI
 				ProjectionType:   gs.Projection.ProjectionType,
 			},
 			KeySchema: mapKeySchemaToDynamodb(gs.KeySchema),
+			ItemCount: aws.Int64(gs.ItemCount),
 		}
 	}
 
@@ -149,6 +150,7 @@ func mapLocalSecondaryIndexDescriptionToDynamodb(input []types.LocalSecondaryInd
 				ProjectionType:   si.Projection.ProjectionType,
 			},
 			KeySchema: mapKeySchemaToDynamodb(si.KeySchema),
+			ItemCount: aws.Int64(si.ItemCount),
 		}
 	}
 
